@@ -95,6 +95,21 @@ def run(tier, seed):
             per = [[(bytes(bytearray(r[:36]) + struct.pack("<H", rng.randrange(5)) + r[38:]) if rng.random() < 0.3 else r, p) for r, p in pk] for pk in per]
         else:
             per = [c06.corrupt(rng, pk, rng.choice([0.2, 0.5])) for pk in per]
+            # a whole word slot of one value in mid-payload (all 0xFF looks like padding, all 0x00 like nothing) followed, later in the
+            # same packet, by a word with an illegal identifier: the later word must still be reported at ITS offset (seed C07-G)
+            def special_slot(r, p):
+                slot = 16 if r[24] == 0 else 10
+                nw = len(p) // slot
+                if nw < 4:
+                    return r, p
+                b = bytearray(p)
+                i = rng.randrange(1, nw - 2)
+                k = rng.randrange(i + 1, nw - 1)
+                fill = rng.choice([0xFF, 0xFF, 0x00])
+                b[i * slot:i * slot + 10] = bytes([fill]) * 10
+                b[k * slot + 9] = rng.choice([0x3D, 0x99, 0x07])
+                return r, bytes(b)
+            per = [[(special_slot(r, p) if rng.random() < 0.2 else (r, p)) for r, p in pk] for pk in per]
         # some packets without any payload (offset_to_next = 64), not last in the file
         def strip(r):
             b = bytearray(r)
